@@ -304,7 +304,7 @@ def one(rep, prog, cfg):
     rep.count("transitions_" + cfg, an.transitions)
     n_err = 0
     for f in res["fns"]:
-        co = an.coroutine_of(f)
+        co = an.spliced_coroutine_of(f)
         if co is None:
             continue
         info = an.info(co)
@@ -394,7 +394,7 @@ def one(rep, prog, cfg):
     from ..cfg import VariantReach
     n_none = 0
     for f in res["fns"]:
-        co = an.coroutine_of(f)
+        co = an.spliced_coroutine_of(f)
         if co is None:
             continue
         info = an.info(co)
@@ -444,7 +444,7 @@ def one(rep, prog, cfg):
     # loop — otherwise a dropped receiver ends the loop and the queued / in-flight request is answered with ConnectionClosed
     n_ev = 0
     for f in res["fns"]:
-        co = an.coroutine_of(f)
+        co = an.spliced_coroutine_of(f)
         if co is None:
             continue
         fl = Flow(co)
@@ -464,7 +464,7 @@ def one(rep, prog, cfg):
             rep.check(not used, "C08.events-optional", "%s/%s event send result unused@%d" % (cfg, fn_name(prog, co), n_ev), co.loc(co.blocks[bb]["ts"]),
                       "the Result of sending a connection event influences the loop's control flow or return value: with the event receiver dropped "
                       "(which the API allows) the loop would end and pending requests would be answered with ConnectionClosed")
-    rep.floor("C08.events-optional", cfg + "/event sends", n_ev, 8)
+    rep.floor("C08.events-optional", cfg + "/event sends", n_ev, 6)
     raii_rule(rep, prog, cfg, res)
     panic_rule(rep, prog, cfg, res)
 
